@@ -4,7 +4,7 @@
 -/
 import DymVerif.Lemmas.CoreForkPlan
 import DymVerif.Lemmas.CoreQueue
-namespace DymVerif.Core
+namespace DymVerif.Core.Fork
 
 -- ---------------------------------------------------------------- the forked rollapp's record
 
@@ -131,7 +131,7 @@ theorem revForHeight_append (r r' : Rollapp) (x : Nat × Nat) (h : r'.revs = r.r
 
 -- ---------------------------------------------------------------- descriptors of a well-formed state
 
-theorem SInfo.WF.bd_range {st : SInfo} (hw : st.WF) {b : BD} (hb : b ∈ st.bds) :
+theorem _root_.DymVerif.Core.SInfo.WF.bd_range {st : SInfo} (hw : st.WF) {b : BD} (hb : b ∈ st.bds) :
     st.start ≤ b.height ∧ b.height ≤ st.last := by
   obtain ⟨i, hi, rfl⟩ := List.mem_iff_getElem.1 hb
   have := hw.bds_seq i st.bds[i] (by simp [hi])
@@ -139,7 +139,7 @@ theorem SInfo.WF.bd_range {st : SInfo} (hw : st.WF) {b : BD} (hb : b ∈ st.bds)
   have := hw.bds_len
   omega
 
-theorem SInfo.WF.bd_take {st : SInfo} (hw : st.WF) {b : BD} (hb : b ∈ st.bds) (m : Nat) (hm : b.height < st.start + m) :
+theorem _root_.DymVerif.Core.SInfo.WF.bd_take {st : SInfo} (hw : st.WF) {b : BD} (hb : b ∈ st.bds) (m : Nat) (hm : b.height < st.start + m) :
     b ∈ st.bds.take m := by
   obtain ⟨i, hi, rfl⟩ := List.mem_iff_getElem.1 hb
   have := hw.bds_seq i st.bds[i] (by simp [hi])
@@ -329,4 +329,4 @@ theorem markObsolete_ok_elim {s s' : St} {au : Bool} {vs : List Nat} (e : markOb
               · exact hb
             · exact hb
 
-end DymVerif.Core
+end DymVerif.Core.Fork
